@@ -1526,6 +1526,28 @@ pub fn generate(name: &str, rng: &mut Rng, n: usize, tier: &str) -> Vec<String> 
 /// choice of the Python side also derives from the harness PRNG
 pub fn gen_trees(rng: &mut Rng, n: usize, _tier: &str) -> Vec<String> {
     let mut out = vec![];
+    // near-twin atoms in one tree: same length and equal except for one byte (the last, the first, the
+    // middle one), or one a prefix of the other — at the lengths where keys, hashes and inline buffers
+    // change size. De-duplicating maps must tell them apart.
+    {
+        let mut k = 0;
+        for len in [1usize, 2, 3, 4, 5, 8, 15, 16, 17, 31, 32, 33, 47, 48, 49, 63, 64, 65, 96, 255, 256, 257] {
+            let base = rng.bytes(len);
+            for which in 0..4 {
+                let mut twin = base.clone();
+                match which {
+                    0 => twin[len - 1] ^= 0x01,
+                    1 => twin[0] ^= 0x80,
+                    2 => twin[len / 2] ^= 0x10,
+                    _ => twin.push(base[len - 1]),
+                }
+                let shorter = base[..len - 1].to_vec();
+                let t = list(vec![T::A(base.clone()), T::A(twin.clone()), T::P(Box::new(T::A(twin)), Box::new(T::A(base.clone()))), T::A(shorter), T::A(base.clone())]);
+                out.push(format!("TREE w{} {}", k, hex::encode(wire(&t))));
+                k += 1;
+            }
+        }
+    }
     for i in 0..n {
         let depth = (i % 9) as u32;
         let t = match rng.below(3) {
